@@ -1,11 +1,11 @@
 #!/usr/bin/env python3
-"""C06, loop-level part — iteration count, exit status and reported residual of the solver loops
-(PANOC now).  DESIGN.md §6 C06.
+"""C06, loop-level part — iteration count, exit status and reported residual of the five solver loops
+(PANOC, ZeroFPR, PANTR, FISTA, PANOC-OCP).  DESIGN.md §6 C06.
 
-Module interface (hooked into checks/c06.py by the coordinator):
-    monitor(op_line, out_line, state) -> None | str | (str, key)    on solver-run op lines
-    extra_stage(rep, broken, exe, tier)                             proof stage on Props/C06_<solver>,
-                                                                    runs + monitors + trace replay
+Module interface (used by checks/c06.py, the registered check, and by checks/c19.py):
+    monitor(op_line, out_line, state, flavor) -> None | str | (str, key)   on solver-run op lines
+    adapters()                        the solvers of checks/multiloop.py with status-oriented generators
+    loop_stage(rep, broken, tier, sols)   runs + bit-exact trace replay + monitors on an existing Report
 Stand-alone:  python3 checks/c06_loop.py --tier quick   (evidence/C06_loop.json)
 """
 import math
@@ -19,8 +19,7 @@ import solvers as S
 import c03
 import loops as LP
 
-SOLVERS = ['panoc']
-MODULES = {'panoc': 'Alpaqa.Props.C06_Panoc'}
+SOLVERS = ['panoc', 'zerofpr', 'pantr', 'fista', 'ocp']
 COUNTS = {}
 NATURAL = ('Converged', 'MaxTime', 'MaxIter', 'NotFinite', 'NoProgress', 'Interrupted')
 
@@ -257,119 +256,172 @@ def nontrivial(op_line, out_line):
         return None
 
 
-def canon_early(line):
-    """Early return (non-finite Lipschitz estimate, no callback): the library's Stats carry the
-    default ε = +inf, the model leaves ε unspecified (model-change request filed) — compare the rest."""
-    if ' ; CB ' in line or not line.startswith('S '):
-        return line
-    secs = line.split(' ; ')
-    t = secs[0].split()
-    if len(t) > 3:
-        t[3] = '*'
-    return ' ; '.join([' '.join(t)] + secs[1:])
+# ------------------------------------------------------------------ generators for the other solvers
+
+def tweak_poly(rng, op):
+    """The status-oriented classes of `gen_run` above applied to a run of another PolyProblem solver."""
+    r = rng.random()
+    if r < 0.15:
+        op.update({'maxnp': str(rng.choice([1, 2, 3])), 'tol': C.f2h(1e-300), 'maxiter': str(rng.choice([20, 60])),
+                   'nanat': '0'})
+        lb, ub = op.vec('Clb'), op.vec('Cub')
+        x0 = op.vec('x0')
+        for i in range(len(x0)):
+            if math.isfinite(lb[i]):
+                x0[i] = lb[i]
+                if rng.random() < 0.5:
+                    ub[i] = lb[i]
+            elif math.isfinite(ub[i]):
+                x0[i] = ub[i]
+        op['x0'] = S.kvvec(x0); op['Cub'] = S.kvvec(ub)
+    elif r < 0.25:
+        op['maxiter'] = str(rng.choice([0, 1, 2]))
+    elif r < 0.30:
+        sc = 10.0 ** rng.choice([90, 100, 120, 160])
+        op['x0'] = S.kvvec([(a if a != 0 else 1.0) * sc for a in op.vec('x0')])
+        n = op.nat('n')
+        op['Clb'] = S.kvvec([-math.inf] * n); op['Cub'] = S.kvvec([math.inf] * n)
+        op['q4'] = S.kvvec([max(a, 0.5) for a in op.vec('q4')])
+        op['nanat'] = '0'; op['stopat'] = '0'; op['stopcb'] = '0'
+    return op
 
 
-def extra_stage(rep, broken, exe, tier):
-    """Loop-level stage of C06: proof obligations of Props/C06_<solver>, solver runs, monitors,
-    bit-exact trace replay.  `exe` (the caller's own harness) is not used."""
-    n = 600 if tier == 'quick' else 10000
-    for solver in SOLVERS:
-        loop = LP.LOOPS[solver]
-        # -- proof stage (adds to the caller's obligations) ------------------------------------
-        keep = {k: rep.cov.get(k) for k in ('obligations', 'discharged', 'checker_cmd', 'axioms_used',
-                                             'translator_regions')}
-        ps = C.proof_stage(rep, rep.pid, ['gen_c05.py', 'gen_c06.py', 'gen_c15.py'], [MODULES[solver]],
-                           driver=loop['driver'],
-                           extra_sources=[loop['model'], 'Alpaqa/Proofs/PanocLoop.lean',
-                                          'Alpaqa/Proofs/PanocInv.lean', 'Alpaqa/Proofs/PanocLoopExample.lean'])
-        rep.cov['loop_obligations_' + solver] = {'obligations': rep.cov['obligations'],
-                                                 'discharged': rep.cov['discharged']}
-        rep.cov['obligations'] += keep['obligations'] or 0
-        rep.cov['discharged'] += keep['discharged'] or 0
-        rep.cov['checker_cmd'] = '; '.join(x for x in (keep['checker_cmd'], rep.cov['checker_cmd']) if x)
-        rep.cov['axioms_used'] = sorted(set(keep['axioms_used'] or []) | set(rep.cov['axioms_used']))
-        tr = dict(keep['translator_regions'] or {})
-        tr.update(rep.cov['translator_regions'])
-        rep.cov['translator_regions'] = tr
-        broken += ps['broken']
-        # -- runs on the real solver ----------------------------------------------------------
-        hexe, log = loop['build']()
-        if hexe is None:
-            broken.append(f'{solver} harness does not compile against the working tree: {log[-800:]}')
+def gen_for(solver_name, rng, mod):
+    if solver_name == 'ocp':
+        r = rng.random()
+        scen = 'noprogress' if r < 0.12 else 'huge' if r < 0.2 else None
+        op = mod.gen_run(rng, scenario=scen) if scen else mod.gen_run(rng)
+        if 0.2 <= r < 0.3:
+            op['maxiter'] = str(rng.choice([0, 1, 2]))
+        return op
+    return tweak_poly(rng, mod.gen_run(rng))
+
+
+def adapters(names=None):
+    """The registry of checks/multiloop.py with C06's status-oriented generators."""
+    import multiloop
+    import loopmon as LM
+    out = []
+    for s in multiloop.registry():
+        if names and s.name not in names:
             continue
-        rng = random.Random(C.seed() * 1000003 + 606 + (17 if tier == 'thorough' else 0))
-        ops = [gen_run(rng, solver).line() for _ in range(n)]
-        ops, dropped, hung = LP.prescreen(hexe, ops)
-        bump('runs_dropped_nan_injection_not_replayable', dropped)
-        LP.report_hung(rep, hung, solver)
-        hout, rc, err = C.run_lines(hexe, ops)
-        if rc != 0 or len(hout) != len(ops):
-            rep.violation(f'{solver}: real solver crashed / aborted on op #{len(hout)} (rc={rc})',
-                          {'op': ops[len(hout)] if len(hout) < len(ops) else None, 'stderr': err}, True)
-        rep.cov['evaluations'] += len(hout)
-        bad = 0
-        seen = set()
-        for i, (o, h) in enumerate(zip(ops, hout)):
-            try:
-                m = monitor(o, h, {})
-            except Exception as e:
-                m = f'monitor crashed on output {h[:80]!r}: {e!r}'
-            if m:
-                key = None
-                if isinstance(m, tuple):
-                    m, key = m
-                rep.violation(f'loop monitor ({solver}): {m}', {'op': o, 'impl_out': h, 'index': i}, True, key=key)
-                bad += 1
-                if bad >= 5:
-                    break
-            k = nontrivial(o, h)
-            if k is not None:
-                seen.add(k)
-        rep.cov['distinct_nontrivial_loop_' + solver] = len(seen)
-        # -- trace replay ---------------------------------------------------------------------
-        dexe = C.driver_exe(loop['driver'])
-        if os.path.exists(dexe):
-            dout, rc, err = C.run_lines(dexe, [o + ' || ' + S.events_only(h) for o, h in zip(ops, hout)])
-            i = C.diff_streams(ops, [canon_early(S.strip_events(h)) for h in hout],
-                               [canon_early(d) for d in dout])
-            rep.cov['loop_traces_validated_' + solver] = len(ops) if i is None else i
-            if i is not None:
-                broken.append(f'{solver} loop correspondence: model and implementation differ on op #{i}: '
-                              f'{ops[i][:300] if i < len(ops) else "<eof>"}')
+        if s.name == 'panoc':
+            def gen(a, rng, n, exe, nsweep):
+                ops = [gen_run(rng, 'panoc').line() for _ in range(n)]
+                if exe and nsweep:
+                    ops += c03.sweep_ops(rng, exe, nsweep, solver='panoc')
+                return ops
+            out.append(LM.Adapter(s, gen, extra_sources=['Alpaqa/Proofs/PanocLoop.lean',
+                                                         'Alpaqa/Proofs/PanocLoopExample.lean']))
         else:
-            broken.append(f'driver {loop["driver"]} missing')
-    rep.cov['loop_monitor_counts'] = dict(sorted(COUNTS.items()))
-    rep.note('loop monitor coverage: ' + ', '.join(f'{k}={v}' for k, v in sorted(COUNTS.items())))
+            def gen(a, rng, n, exe, nsweep):
+                ops = list(a.mod.corpus_ops()) if hasattr(a.mod, 'corpus_ops') else []
+                ops += [gen_for(a.name, rng, a.mod).line() for _ in range(n)]
+                if exe and nsweep:
+                    ops += a.mod.sweep_ops(rng, exe, nsweep)
+                return ops
+            out.append(LM.Adapter(s, gen, skip_monitor=lambda op: False))
+    return out
+
+
+def solver_monitor(solver, o, h, st):
+    if h.startswith('S exception'):
+        if solver.name == 'ocp':
+            import c13                  # unsupported criterion ⇔ invalid_argument, outputs untouched
+            return c13.monitor(o, h, st)
+        return None
+    m = monitor(o, h, st, flavor=solver.name)
+    if m:
+        return m
+    if solver.name == 'fista':
+        import loop_fista               # ∇ψ(x̂) reported / used for ε is the gradient at the reported x̂
+        return loop_fista.monitor_c06(o, h, st)
+    if solver.name == 'ocp':
+        import c13                      # ε against an independent exact roll-out (Converged runs)
+        return c13.monitor(o, h, st)
+    return None
+
+
+PER = {}
+
+
+def counted_monitor(solver, o, h, st):
+    before = dict(COUNTS)
+    try:
+        return solver_monitor(solver, o, h, st)
+    finally:
+        d = PER.setdefault(solver.name, {})
+        for k, v in COUNTS.items():
+            if v != before.get(k, 0):
+                d[k] = d.get(k, 0) + v - before.get(k, 0)
+
+
+def loop_stage(rep, broken, tier, sols):
+    """Loop-level stage of C06 on an existing Report (proof obligations of the Props/C06_<solver> modules
+    are part of the caller's proof stage): runs, bit-exact trace replay, monitors — for every solver."""
+    import multiloop
+    import loopmon as LM
+    distinct = set()
+    found = multiloop.run_solvers(rep, broken, sols, counted_monitor, tier,
+                                  n=1500 if tier == 'quick' else 25000, nsweep=1 if tier == 'quick' else 8,
+                                  nontrivial=lambda o, h: nontrivial_any(o, h), distinct=distinct, label='loop ')
+    LM.report_hung(rep, sols)
+    rep.cov['distinct_nontrivial_loop'] = len(distinct)
+    rep.cov['loop_monitor_counts'] = {k: dict(sorted(v.items())) for k, v in PER.items()}
+    for name, d in PER.items():
+        rep.note(f'loop monitor coverage [{name}]: ' + ', '.join(f'{k}={v}' for k, v in sorted(d.items())))
     need = ['status_Converged', 'status_MaxIter', 'status_Interrupted', 'status_NotFinite', 'eps_formula_bitexact']
-    if tier == 'thorough':
-        need.append('noprogress_checked')
-    for k in need:
-        if COUNTS.get(k, 0) == 0:
-            broken.append(f'loop monitor never exercised: {k}')
+    for s in sols:
+        if not rep.cov.get('per_solver', {}).get(s.name, {}).get('runs'):
+            continue
+        nd = list(need)
+        if tier == 'thorough' and s.name != 'pantr':       # pantr.tpp never updates no_progress
+            nd.append('noprogress_checked')
+        for k in nd:
+            if PER.get(s.name, {}).get(k, 0) == 0:
+                broken.append(f'[{s.name}] loop monitor never exercised: {k}')
+    return found
+
+
+def nontrivial_any(op_line, out_line):
+    """(status, iterations, criterion, op hash mod 64) from the S section of any of the five layouts."""
+    t = out_line.split(' ; ')[0].split()
+    if len(t) < 3 or t[0] != 'S' or t[1] == 'exception':
+        return None
+    return (t[1], t[2], S.Op.parse(op_line).get('crit'), hash(op_line) % 64)
+
+
+TRUSTED = [
+    'hand-written loop models Alpaqa/Model/{Panoc,Zerofpr,Pantr,Fista,Ocp}.lean tied by bit-exact trace replay '
+    '(statistics, every callback field, written-back outputs, number of oracle calls) on the explored runs',
+    'problem functions, direction providers, stop flag, clock are oracles of the models']
+RULE = ('loop level, per solver (PANOC, ZeroFPR, PANTR, FISTA, PANOC-OCP): seeded random runs with max_iter ∈ '
+        '{0,1,2,…}, max_no_progress ∈ {1,2,3,10}, all ten criteria (PANOC-OCP: four must throw), NaN injection, '
+        'time limit, stop injection (random and exhaustive on fixed runs); 15 % of the runs start in a corner of '
+        'a (degenerate) box with tolerance 1e-300 to reach NoProgress, 5 % from an astronomically large point to '
+        'reach NotFinite; distinct = (solver, status, iterations, criterion, op hash mod 64)')
 
 
 def main(argv):
+    """Stand-alone run of the loop-level stage (evidence/C06_loop.json); the registered check is checks/c06.py."""
+    import multiloop
     tier = C.tier_from_argv(argv)
     rep = LP.LoopReport('C06', tier, 'C06_loop')
-    rep.cov['trusted_base'] = [
-        'Lean 4.33 kernel + Mathlib (axioms: propext, Classical.choice, Quot.sound)',
-        'translator gen_c06 (status chain, stopping criteria, no-progress update), gen_c05',
-        'hand-written loop model Alpaqa/Model/Panoc.lean tied by bit-exact trace replay on the explored runs',
-        'problem functions, direction provider, stop flag, clock are oracles of the model']
-    rep.cov['rule'] = ('seeded random PANOC runs (see checks/c03.py) with max_iter ∈ {0,1,2,…}, '
-                       'max_no_progress ∈ {1,2,3,10}, all ten criteria, NaN injection, time limit, stop '
-                       'injection; 15 % of the runs start in a corner of a (degenerate) box with tolerance '
-                       '1e-300 to reach NoProgress; distinct = (status, iterations, criterion, op hash mod 64)')
+    rep.cov['trusted_base'] = ['Lean 4.33 kernel + Mathlib (axioms: propext, Classical.choice, Quot.sound)',
+                               'translator gen_c06 (status chain, stopping criteria, no-progress update), gen_c05'] + TRUSTED
+    rep.cov['rule'] = RULE
     rep.assumptions = ['real-number semantics in theorems; monitors recompute ε in doubles in the documented order']
-    broken = []
-    extra_stage(rep, broken, None, tier)
-    rep.cov['distinct_nontrivial'] = sum(v for k, v in rep.cov.items() if k.startswith('distinct_nontrivial_loop_'))
-    rep.cov['traces_validated_against_impl'] = sum(v for k, v in rep.cov.items()
-                                                   if k.startswith('loop_traces_validated_'))
+    sols = adapters()
+    modules, gens, extra, drivers = multiloop.stage_inputs('C06', sols)
+    ps = C.proof_stage(rep, 'C06', gens, modules, driver=None, extra_sources=extra, extra_targets=drivers)
+    broken = list(ps['broken'])
+    found = loop_stage(rep, broken, tier, sols)
+    rep.cov['distinct_nontrivial'] = rep.cov.get('distinct_nontrivial_loop', 0)
+    broken.extend(g for g in C.GEN_ERRORS if g not in broken)
     if broken:
         for b in broken:
             rep.note('BROKEN: ' + b[:600])
-        if not rep.violations:
+        if not found:
             rep.violation('property no longer shown to hold: ' + '; '.join(b[:300] for b in broken[:4]),
                           {'broken': broken}, has_input=False)
         rep.cov['discharged'] = min(rep.cov['discharged'], max(0, rep.cov['obligations'] - 1))
